@@ -65,6 +65,7 @@ pub struct World {
     pub routes: warp::filters::BoxedFilter<(Box<dyn warp::Reply>,)>,
     pub open_messages: Arc<OpenMessageRepository>,
     pub ticker: Arc<dyn TickerService>,
+    pub metrics: Arc<mithril_aggregator::MetricsService>,
     pub fixture: MithrilFixture,
     /// harness-side record: epoch in which a signer's registration was accepted → signer indices
     pub registered_in_epoch: RefCell<BTreeMap<u64, BTreeSet<usize>>>,
@@ -108,6 +109,7 @@ pub struct Node {
     pub routes: warp::filters::BoxedFilter<(Box<dyn warp::Reply>,)>,
     pub open_messages: Arc<OpenMessageRepository>,
     pub ticker: Arc<dyn TickerService>,
+    pub metrics: Arc<mithril_aggregator::MetricsService>,
 }
 
 async fn build_node(config: &ServeCommandConfiguration, outside: &Outside) -> Node {
@@ -133,7 +135,8 @@ async fn build_node(config: &ServeCommandConfiguration, outside: &Outside) -> No
         .boxed();
     let open_messages = b.get_open_message_repository().await.expect("open message repository");
     let ticker = b.get_ticker_service().await.expect("ticker");
-    Node { deps, runtime, routes, open_messages, ticker }
+    let metrics = b.get_metrics_service().await.expect("metrics");
+    Node { deps, runtime, routes, open_messages, ticker, metrics }
 }
 
 impl World {
@@ -157,7 +160,7 @@ impl World {
             )])),
             block_scanner: Arc::new(DumbBlockScanner::new()),
         };
-        let Node { deps, runtime, routes, open_messages, ticker } = build_node(&config, &outside).await;
+        let Node { deps, runtime, routes, open_messages, ticker, metrics } = build_node(&config, &outside).await;
         let fixture = fixture(nsigners);
         outside.chain_observer.set_signers(fixture.signers_with_stake()).await;
         let epoch = Epoch(1);
@@ -174,6 +177,7 @@ impl World {
             routes,
             open_messages,
             ticker,
+            metrics,
             fixture,
             registered_in_epoch: RefCell::new(BTreeMap::new()),
             cert_order: RefCell::new(vec![]),
@@ -191,13 +195,14 @@ impl World {
     /// Drop the node (runtime, dependency container, routes) and build a new one on the same
     /// database directory: what a process restart does.
     pub async fn restart(&mut self) {
-        let Node { deps, runtime, routes, open_messages, ticker } = build_node(&self.config, &self.outside).await;
+        let Node { deps, runtime, routes, open_messages, ticker, metrics } = build_node(&self.config, &self.outside).await;
         self.deps = deps;
         self.last_state.set(runtime.state_label());
         *self.runtime.borrow_mut() = Some(runtime);
         self.routes = routes;
         self.open_messages = open_messages;
         self.ticker = ticker;
+        self.metrics = metrics;
         self.restarts += 1;
     }
 
